@@ -477,6 +477,31 @@ COMMUTATIVE: set[str] = set()  # names of binary function symbols assumed commut
 TERM_AXIOMS: dict = {}  # function symbol name -> callable(app) -> list of (assumed) ground facts about that term
 
 
+QUERY_CONSTS: dict = {}  # sort name -> {id: constant} occurring in the current query (for axioms that need e.g. the environments)
+_CONST_CACHE: dict = {}
+
+
+def _consts_of(f):
+    fid = f.get_id()
+    hit = _CONST_CACHE.get(fid)
+    if hit is not None:
+        return hit
+    acc, seen, stack = [], set(), [f]
+    while stack:
+        x = stack.pop()
+        i = x.get_id()
+        if i in seen:
+            continue
+        seen.add(i)
+        if z3.is_app(x):
+            if x.num_args() == 0 and x.decl().kind() == z3.Z3_OP_UNINTERPRETED:
+                acc.append(x)
+            stack.extend(x.children())
+    _CONST_CACHE[fid] = acc
+    _KEEP.append(f)
+    return acc
+
+
 _TAX_CACHE: dict = {}  # formula id -> one round of term-axiom instances for the terms of that formula
 
 
@@ -513,6 +538,10 @@ def commutativity_instances(formulas: list, rounds: int = 14, limit: int = 3000)
     (iterated, because an instantiated axiom mentions new terms)"""
     out, have = [], set()
     frontier = list(formulas)
+    QUERY_CONSTS.clear()
+    for f in formulas:
+        for cst in _consts_of(f):
+            QUERY_CONSTS.setdefault(cst.sort().name(), {})[cst.get_id()] = cst
     for _ in range(rounds):
         new = []
         for f in frontier:
